@@ -79,6 +79,8 @@ def make_workload(rng, n_threads, max_tests, runlevel=True):
                     "outcome": rng.choice(OUTCOMES)}
             if j and rng.random() < 0.3:
                 test["t0"] = None   # no time() before startTest: the start time is the previous end time
+            elif rng.random() < 0.2:
+                test["t1"] = test["t0"] - 5   # explicit times may go backwards (TestResult.time allows it)
             r = rng.random()
             if r < 0.4:
                 test["tags_in"] = [["l%d" % uid], []]
@@ -130,7 +132,10 @@ def worker(fwd, ops, errors):
             elif k == "shouldStop":
                 fwd.shouldStop
             elif k == "tags":
-                fwd.tags(set(op[1]), set(op[2]))
+                new, gone = set(op[1]), set(op[2])
+                fwd.tags(new, gone)
+                new.clear()    # the reporter goes on using its own sets
+                gone.clear()
             elif k == "test":
                 spec = op[1]
                 test = testtools.PlaceHolder(spec["id"])
@@ -138,7 +143,10 @@ def worker(fwd, ops, errors):
                     fwd.time(BASE + datetime.timedelta(seconds=spec["t0"]))
                 fwd.startTest(test)
                 if "tags_in" in spec:
-                    fwd.tags(set(spec["tags_in"][0]), set(spec["tags_in"][1]))
+                    new, gone = set(spec["tags_in"][0]), set(spec["tags_in"][1])
+                    fwd.tags(new, gone)
+                    new.add("scribble")
+                    gone.clear()
                 fwd.time(BASE + datetime.timedelta(seconds=spec["t1"]))
                 name = spec["outcome"]
                 try:
